@@ -31,6 +31,7 @@ FIRST = {
     "S08i-csv-reader-tables-shared-across-files": ("missed (every trace was read by its own CSVReader)", "C08: half of the traces are read by one CSVReader after a companion trace (the run's own trace with renamed graphs), as analyze.py passes several paths; the reconstruction must not depend on what was read before"),
     "S11i-stale-remaining-time-after-unschedule": ("missed (no state held a withdrawn plan, and the oracle asked the task itself for the worst-case runtime of a strategy-less decision)", "scheduler-input states for C11 contain tasks whose earlier plan was withdrawn (schedule + unschedule); the runtime charged to a strategy-less (Z3) decision is computed from the strategies, not read from Task.remaining_time"),
     "S14i-tetrisched-running-parent-full-runtime": ("missed (running tasks were never parents of offered tasks, and every miss in a partially-executed case was attributed to finding F12)", "C14 partially_executed_running: chains whose first task is already running; a miss is attributed to F12 only if the task cannot be added when running tasks reserve their full runtime from now, otherwise it is a new signature"),
+    "S03i-remove-event-sifts-one-way": ("missed by C03 (caught by C16 event_queue: the queue pops out of order after a removal, and by C05: every run in which it shows raises 'cannot step backwards')", None),
     "S17b-stale-topological-order-cache": ("missed", "C17 gained graph_history: all clauses re-asked after every add_node/add_child/remove on one Graph object"),
     "S01b-reload-profile-skips-booking": ("missed", None),
     "S11e-ilp-skips-precedence-for-scheduled-children": ("missed (state never built)", "scheduler-input states for C11 may contain children that an earlier invocation planned ahead (SCHEDULED after a RUNNING/SCHEDULED parent)"),
